@@ -33,6 +33,12 @@ impl BroadcastChannel {
     pub fn receiver_count(&self) -> usize {
         self.sender.receiver_count()
     }
+
+    /// Number of batches not yet received by every subscriber (verification builds only).
+    #[cfg(feature = "verif-hooks")]
+    pub fn queued_len(&self) -> usize {
+        self.sender.len()
+    }
 }
 
 impl Clone for BroadcastChannel {
